@@ -73,6 +73,46 @@ struct kind_of<TV<Tag, K>> {
     static constexpr Kind value = K;
 };
 
+// "Trivially assignable" tracked shape: constructors and destructor consult the registry, but the copy / move ASSIGNMENT
+// operators are defaulted (trivial).  is_trivially_copy_assignable / is_trivially_move_assignable are true while
+// is_trivially_copy_constructible / _move_constructible / _destructible are false, so an owner that selects a bytewise
+// (defaulted) assignment from the assignment trait alone skips the destructor of the old and the constructor of the new
+// contained object.  The tracked int sits at a different offset for every Tag, so two alternatives of one union never
+// share a registry key (a bytewise cross-alternative assignment cannot be mistaken for a proper one).
+template <int Tag>
+struct TA {
+    int pad[Tag + 1]{};
+    int v{0};
+    TA() noexcept { lt::on_construct(&v); }
+    TA(int x) noexcept : v{x} { lt::on_construct(&v); } // NOLINT implicit on purpose
+    TA(TA const& o) noexcept : v{o.v}
+    {
+        lt::need_live(&o.v, "copy constructor reads a source that is not a live object");
+        lt::on_construct(&v);
+    }
+    TA(TA&& o) noexcept : v{o.v}
+    {
+        lt::need_live(&o.v, "move constructor reads a source that is not a live object");
+        lt::on_construct(&v);
+    }
+    auto operator=(TA const&) noexcept -> TA& = default;
+    auto operator=(TA&&) noexcept -> TA&      = default;
+    ~TA() noexcept { lt::on_destroy(&v); }
+    [[nodiscard]] auto get() const noexcept -> int
+    {
+        lt::need_live(&v, "member function ran on storage that holds no live object");
+        return v;
+    }
+    friend auto operator==(TA const& a, TA const& b) noexcept -> bool { return a.get() == b.get(); }
+    friend auto operator!=(TA const& a, TA const& b) noexcept -> bool { return a.get() != b.get(); }
+    friend auto operator<(TA const& a, TA const& b) noexcept -> bool { return a.get() < b.get(); }
+    friend auto operator>(TA const& a, TA const& b) noexcept -> bool { return a.get() > b.get(); }
+    friend auto operator<=(TA const& a, TA const& b) noexcept -> bool { return a.get() <= b.get(); }
+    friend auto operator>=(TA const& a, TA const& b) noexcept -> bool { return a.get() >= b.get(); }
+};
+static_assert(std::is_trivially_copy_assignable_v<TA<0>> && std::is_trivially_move_assignable_v<TA<0>>);
+static_assert(!std::is_trivially_copy_constructible_v<TA<0>> && !std::is_trivially_move_constructible_v<TA<0>> && !std::is_trivially_destructible_v<TA<0>>);
+
 // bulk count biased to the boundaries of the remaining room
 inline auto pick(std::uint32_t raw, std::size_t room) -> std::size_t
 {
